@@ -194,6 +194,10 @@ case("F50 lazy datetime labels with a block of NaT", f50, lambda r: r == [6.0, 3
 # F51
 case("F51 several groupers, a label combination that never occurs", lambda: groupby_reduce(np.arange(1.0, 5), np.array([1, -2, 1, -2]), np.array([0, 0, 0, -3]), func="sum", fill_value=-5)[0].tolist(), lambda r: r == [[4.0, 2.0], [-5.0, 4.0]])
 
+# F52
+case("F52 integer fill outside the range of a preserved int8 dtype (chunked)", lambda: groupby_reduce(da.from_array(np.arange(6, dtype=np.int8), chunks=2), np.array([1, 1, 2, 2, 5, 5]), func="max", expected_groups=np.array([0, 1, 2, 3]), fill_value=1000, method="map-reduce")[0].compute().tolist(), lambda r: r == [1000, 1, 3, 1000])
+case("F52 the same, in memory", lambda: groupby_reduce(np.arange(6, dtype=np.int8), np.array([1, 1, 2, 2, 5, 5]), func="max", expected_groups=np.array([0, 1, 2, 3]), fill_value=1000)[0].tolist(), lambda r: r == [1000, 1, 3, 1000])
+
 bad = 0
 for name, verdict in results:
     print(f"{name:55s} {verdict}")
